@@ -360,7 +360,7 @@ def r5_binify_guards(ctx):
                         b_, ix_ = peel(F.Rat(F.Poly.atom(a_)))
                         entry = sym_of(b_) in (pb[0], mat) and len(ix_) == 2 and all(not isinstance(x, str) for x in ix_)
                         if entry and sym_of(b_) == pb[0]:
-                            entry = all(const_of(x) is not None or (sym_of(x) or "").startswith("_i") for x in ix_)
+                            entry = all(const_of(x) is not None or sym_of(x) is not None for x in ix_)       # a loop index, an integer or any other plain name
                         if not entry:
                             read_ = False
                             break
